@@ -25,7 +25,7 @@ import (
 )
 
 func init() {
-	evid.Register(&evid.Check{ID: "C18", Level: "exploration", Run: run, QuickBudget: 240 * time.Second, ThoroughBudget: 14 * time.Minute})
+	evid.Register(&evid.Check{ID: "C18", Level: "exploration", Run: run, QuickBudget: 300 * time.Second, ThoroughBudget: 14 * time.Minute})
 }
 
 type scope struct{ Path, Module string }
